@@ -105,6 +105,10 @@ Definition prop_c04 (c : case) : bool :=
            forallb (fun e => match e with GP (CI z) => negb (z =? 0) | _ => true end) l &&
            forallb (fun kv => match snd kv with GP (CI z) => negb (z =? 0) | _ => true end) m
       else true
+    (* vAllValid: the harness reports w = 1 iff every value with a validator or a Validate hook
+       that is reachable in the result is valid (pre-filled map entries the configuration does not
+       mention, named primitives with a pointer-receiver Validate) *)
+    | GStructV [GP (CI w)] => if String.eqb what "vAllValid" then 1 <=? w else true
     | GStructV [GP (CI a); GP (CI b); GP (CI c0)] =>
       if String.eqb what "vInit" then (1 <=? a) && (1 <=? b) && (0 <=? c0) else range_ok v
     | _ => range_ok v
